@@ -250,6 +250,9 @@ func (s *raftLog) Close() error {
 	if s.ro != nil {
 		s.ro.Destroy()
 	}
+	if s.globalOpts != nil {
+		s.globalOpts.Destroy()
+	}
 	s.db = nil
 	return nil
 }
